@@ -221,3 +221,82 @@ Theorem C11_vtol_check_rejects :
     vtol_check (A, c, mu, tol, delta, obs) = 1%nat.
 Proof. exact vtol_check_rejects. Qed.
 Print Assumptions C11_vtol_check_rejects.
+
+(** ** NONLINEAR monotone systems.  Abstract form: F maps an invariant set below the fixed point
+    mu into itself, is monotone there, and contracts towards mu from below with factor a < 1
+    in the one-sided max norm; then the iterate at which the stopping distance is reached is
+    within tol/(1-a) below mu (and the next one within a tol/(1-a)). *)
+Require Import Fggs.Proofs.Tolerance_poly.
+
+Theorem C11_monotone_stop_bound :
+  forall (F : list Q -> list Q) (Inv : list Q -> Prop) (mu x0 : list Q) (a : Q),
+    (0 <= a)%Q -> (a < 1)%Q -> veq mu (F mu) ->
+    (forall x, Inv x -> vle x mu -> Inv (F x)) ->
+    (forall x, Inv x -> vle x mu -> vle (F x) (F mu)) ->
+    (forall t x, (0 <= t)%Q -> Inv x -> vle x mu -> vle_off t mu x -> vle_off (a * t) (F mu) (F x)) ->
+    vle x0 mu -> Inv x0 ->
+    forall k tol, (0 <= tol)%Q -> vle_off tol (iter (S k) F x0) (iter k F x0) ->
+      vle (iter k F x0) mu /\ vle_off (tol / (1 - a)) mu (iter k F x0) /\
+      vle_off (a * (tol / (1 - a))) mu (iter (S k) F x0).
+Proof. exact nl_stop_bound. Qed.
+Print Assumptions C11_monotone_stop_bound.
+
+(** polynomial systems over Q^n with non-negative coefficients ([pstep sys], Kleene iterates
+    [piter sys k] from 0): if [mu] is a non-negative fixed point at which every row sum of the
+    Jacobian ([dpoly_sum mu p]) is <= a < 1, the iterate at which the code's test fires satisfies
+    x_k <= mu <= x_k + tol/(1-a)  (below mu the Jacobian is smaller: mean-value inequality with
+    the derivative taken at mu, [mono_val_taylor]) *)
+Theorem C11_poly_stop_bound :
+  forall (sys : list (list (Q * list nat))) (mu : list Q) (a : Q),
+    Forall (Forall (fun m => 0 <= fst m)%Q) sys -> Forall (fun p => dpoly_sum mu p <= a)%Q sys ->
+    (0 <= a)%Q -> (a < 1)%Q -> veq mu (pstep sys mu) ->
+    forall k tol, vle (vzero (length sys)) mu -> (0 <= tol)%Q ->
+      vclose tol (piter sys k) (piter sys (S k)) = true ->
+      vle (piter sys k) mu /\ vle_off (tol / (1 - a)) mu (piter sys k) /\
+      vle_off (a * (tol / (1 - a))) mu (piter sys (S k)).
+Proof. exact poly_stop_bound. Qed.
+Print Assumptions C11_poly_stop_bound.
+
+(** ** The cross-semiring relations at LEAST FIXED POINTS / certified enclosures of recursive
+    grammars (Proofs/Cross_lfp.v: composition with C02's Kleene, Park and enclosure theorems) *)
+Require Import Fggs.Model.Kleene Fggs.Proofs.SP_mono Fggs.Proofs.Cross_lfp.
+
+(** Bool = support of Real at the least fixed point: the Boolean least fixed point B (reached by
+    the Boolean Kleene chain after k <= #cells passes) is the support of the k-th Real Kleene
+    iterate and contains the support of every Real iterate, i.e. it is the support of the
+    supremum of the Real chain *)
+Theorem C11_bool_lfp_is_support_of_real_lfp :
+  forall G (w : env (R:=ereal)),
+  wf_grammar G = true ->
+  exists k, (k <= length (flat_map (fun X => map (pair X) (all_assts (lshape G X))) (nonterminals G)))%nat /\
+    let sw := fun l idx => supp (w l idx) in
+    let B := Zk bool_ops G sw k in
+    env_eq_on G (step bool_ops G sw B) B /\
+    (forall v : env (R:=bool), env_le_on bool_ops G (step bool_ops G sw v) v -> env_le_on bool_ops G B v) /\
+    (forall X xi, supp (Zk ereal_ops G w k X xi) = B X xi) /\
+    (forall j X xi, In X (nonterminals G) -> In xi (all_assts (lshape G X)) ->
+                    le bool_ops (supp (Zk ereal_ops G w j X xi)) (B X xi)).
+Proof. exact supp_lfp. Qed.
+Print Assumptions C11_bool_lfp_is_support_of_real_lfp.
+
+(** Viterbi <= Log at certified enclosures: every max-times Kleene iterate (hence the Viterbi
+    least fixed point, their supremum) is below the upper end of every certified Real enclosure *)
+Theorem C11_viterbi_below_real_enclosure :
+  forall G w K lo u,
+  wf_grammar G = true ->
+  enclosure ereal_ops rd_real infl_real eleb G w K = Some (lo, u) ->
+  forall k X xi, In X (nonterminals G) -> In xi (all_assts (lshape G X)) ->
+    ele (Zk maxtimes_ops G w k X xi) (env_of ereal_ops u X xi).
+Proof. exact maxtimes_below_real_enclosure. Qed.
+Print Assumptions C11_viterbi_below_real_enclosure.
+
+(** ... and below every pre-fixed point of the Real equations, in particular the Real least
+    fixed point wherever it exists as an element of the carrier *)
+Theorem C11_viterbi_below_real_prefix :
+  forall G w (v : env (R:=ereal)),
+  wf_grammar G = true ->
+  (forall X xi, In X (nonterminals G) -> In xi (all_assts (lshape G X)) -> ele (step ereal_ops G w v X xi) (v X xi)) ->
+  forall k X xi, In X (nonterminals G) -> In xi (all_assts (lshape G X)) ->
+    ele (Zk maxtimes_ops G w k X xi) (v X xi).
+Proof. exact maxtimes_below_real_prefix. Qed.
+Print Assumptions C11_viterbi_below_real_prefix.
